@@ -253,7 +253,7 @@ class WriteNames(Contract):
     the declared size equals the number of bytes that follow the size field"""
 
     target = AI + "FilesInfo._write_names"
-    props = ("C07", "C08", "C17")
+    props = ("C07", "C08", "C17", "C01")  # C01: the names written are the names listed after reopening
     assert_mode = "check"
     assumptions = ("UTF-16 codec facts (spec.utf16): encode is concatenation-compatible; len(encode(s)) is even and between 2 and 4 bytes per character",)
 
